@@ -131,7 +131,7 @@ def rule_R08_1(ctx):
     paren = [x for x in t6["atoms"] if len(x["syms"]) == 3 and x["syms"][0] == '"("'
              and x["syms"][2] == '")"' and x["syms"][1] in tiers[0]["aliases"]]
     neg = [x for x in t6["atoms"] if x["syms"][0] == '"-"' and len(x["syms"]) == 2
-           and st["token_classes"].get(x["syms"][1]) == "int_literal"]
+           and (st["token_classes"].get(x["syms"][1]) == "int_literal" or x["syms"][1] == '"int_literal"')]
     r.inst("atoms: %d; paren production: %s; negated literal: %s"
            % (len(t6["atoms"]), bool(paren), bool(neg)))
     if len(paren) == 1:
